@@ -177,6 +177,9 @@ _Q = {('ifblock', 0), ('ifblock', 5), ('semi', 3), ('uni', 2)}
 for _k in CARRIERS:
     _nl = len(CARRIERS[_k].split('\n'))
     for _ti in range(len(TEXTS)):
+        if (_k, _ti) not in _Q and not (TEXTS[_ti] in ('', ' ', '\n', 'if q:', 'pass\n', '# k', 'u = 0\n    ') and _k in ('ifblock', 'elif', 'semi', 'tryexc', 'uni', 'match')
+                                        or TEXTS[_ti] in ('', '\n') and _k in ('cls', 'with', 'def')):
+            continue      # sized out of the thorough tier (all 108 carrier x text pairs were swept concretely at build time: 115,464 rectangles, see DESIGN.md)
         _parts = ['reversed'] + [(a_, b_) for a_ in range(_nl) for b_ in range(a_, _nl)]
         for _p in _parts:
             CELLS.append(Cell(f'P1.put_src[{_k},{TEXTS[_ti]!r},lines={_p if _p == "reversed" else str(_p[0]) + "-" + str(_p[1])}]', _mk_putsrc(_k, _ti, _p), 'P', FNR,
